@@ -369,3 +369,10 @@ func Harness_app_probe() {
 	verifLabel("out", out)
 	verifAssert("ok", err == nil && len(verifLines(out)) > 0)
 }
+
+// Harness_app_probe2: register with the default template (engine bring-up).
+func Harness_app_probe2() {
+	out, err := hApp(-1, "--logfile="+verifFile("log", hAppLog), "--database="+verifFile("db", hAppDB), "reg")
+	verifLabel("out", out)
+	verifAssert("ok", err != nil)
+}
